@@ -543,6 +543,10 @@ func byteFault(ch *kernel.Chooser, src string) Fault {
 	return Fault{Kind: "byte", Text: text, At: at, LastIntact: -1, Ctx: "byte:" + k}
 }
 
+var insertVocab = []string{";", ",", ".", ":", "(", ")", "{", "}", "[", "]", "=", "==", "=>", "++", "--", "!", "-", "+", "*", "/", "%", "&&", "||", "<", ">=", "+=", "-=",
+	"let", "function", "return", "if", "else", "while", "for", "true", "null", "x", "0", "08", "1.", ".5", "1e", "0x", "''", "`", "\"", "'", "//", "/*", "*/", "/**/", "#", "@", "\\", "?", "~", "^", "&", "|", "...", "?.", "**",
+	"var", "const", "new", "this", "typeof", "in", "of", "do", "class", "async", "await", "yield", "break", "continue", "switch", "case", "try", "catch", "throw", "delete", "void"}
+
 var optionalFields = map[string]bool{
 	"LetStatement.Value": true, "LetExpression.Value": true, "ReturnStatement.ReturnValue": true, "IfStatement.ElseBranch": true,
 	"ForStatement.Init": true, "ForStatement.Condition": true, "ForStatement.Update": true, "FunctionExpression.Name": true,
@@ -775,6 +779,36 @@ func (e *Engine) runC11(ch *kernel.Chooser, st *kernel.Stats) kernel.RunResult {
 				ta, tb := p.Toks[a], p.Toks[b]
 				texts = append(texts, Fault{Kind: "double", Ctx: "double:del+del", At: ta.Start,
 					Text: base[:ta.Start] + " " + base[ta.End:tb.Start] + " " + base[tb.End:]})
+			}
+		}
+		// further token-level mutations: swap neighbours, duplicate, replace by another token of the
+		// program, insert a token from a vocabulary of keywords and punctuators (incl. ones xjs does not know)
+		if n := len(p.Toks); n >= 2 {
+			for i := 0; i < 6; i++ {
+				a := ch.Choose(n - 1)
+				ta, tb := p.Toks[a], p.Toks[a+1]
+				texts = append(texts, Fault{Kind: "tokswap", Ctx: "tokswap", At: ta.Start,
+					Text: base[:ta.Start] + base[tb.Start:tb.End] + " " + base[ta.Start:ta.End] + base[tb.End:]})
+			}
+			for i := 0; i < 6; i++ {
+				t := p.Toks[ch.Choose(n)]
+				texts = append(texts, Fault{Kind: "tokdup", Ctx: "tokdup", At: t.Start,
+					Text: base[:t.End] + " " + base[t.Start:t.End] + base[t.End:]})
+			}
+			for i := 0; i < 6; i++ {
+				t, o := p.Toks[ch.Choose(n)], p.Toks[ch.Choose(n)]
+				texts = append(texts, Fault{Kind: "tokrepl", Ctx: "tokrepl", At: t.Start,
+					Text: base[:t.Start] + " " + base[o.Start:o.End] + " " + base[t.End:]})
+			}
+			for i := 0; i < 10; i++ {
+				t := p.Toks[ch.Choose(n)]
+				w := insertVocab[ch.Choose(len(insertVocab))]
+				at := t.Start
+				if ch.Bool(1, 2) {
+					at = t.End
+				}
+				texts = append(texts, Fault{Kind: "tokins", Ctx: "tokins:" + w, At: at,
+					Text: base[:at] + " " + w + " " + base[at:]})
 			}
 		}
 		res.Nontrivial = len(p.Toks) >= 4
